@@ -5,6 +5,7 @@ from ..core import Acc, Stage
 from ..oracle import parity
 from ..scope import molecules as M, inputs
 from .. import chooser
+from ..oracle import knownclass
 
 META = {
     'technique': 'complete enumeration of neighbour permutations / hydrogen positions / end exchanges per centre and of SMILES spellings (choice-point explorer + RDKit roots) on the real stereo code, judged by permutation parity and by RDKit',
@@ -167,7 +168,8 @@ def run_spellings(shard):
             # the spelling must denote the original molecule for RDKit (checks the WRITER when src == own)
             same = rd_same_text(text, s)
             if same is False:
-                acc.fail('a spelling written by the library denotes a different stereoisomer for RDKit :: %s' % s if src == 'own' else 'harness: rdkit spelling differs :: %s' % s,
+                tg = knownclass.TAG if knownclass.ct_closure(text) else ''
+                acc.fail('a spelling written by the library denotes a different stereoisomer for RDKit%s :: %s' % (tg, s) if src == 'own' else 'harness: rdkit spelling differs :: %s' % s,
                          mol=s, text=text, script=script)
                 continue
             # reading it (checks the READER) and writing canonically must again denote the same molecule
@@ -179,7 +181,8 @@ def run_spellings(shard):
                 continue
             same = rd_same_text(out, s)
             if same is False:
-                acc.fail('reading a %s spelling changes the configuration (judged by RDKit) :: %s' % (src, s), mol=s, text=text, got=out, script=script)
+                tg = knownclass.TAG if (knownclass.ct_closure(out) or knownclass.ct_closure(text)) else ''
+                acc.fail('reading a %s spelling changes the configuration (judged by RDKit)%s :: %s' % (src, tg, s), mol=s, text=text, got=out, script=script)
             acc.outcomes[src] += 1
         if i < 2:
             acc.sample({'molecule': s, 'spellings': len(texts)})
